@@ -163,6 +163,44 @@ def check_case(ip, c):
     return bad, drift
 
 
+def shape_histories(ip):
+    """the same process centroids frames of many shapes, one after the other: equal pixel counts in different shapes (6x12 then
+    12x6), equal PADDED shapes reached from different frame sizes (12x12 padding 1, then 6x6 padding 2).  Single bright pixel and
+    displaced-copy clauses (exact expected values), evaluated after every change of shape."""
+    bad = []
+    n = 0
+    for seq in (((6, 12), (12, 6), (8, 9), (9, 8), (4, 18), (6, 12)), ((16, 9), (12, 12), (9, 16), (3, 4), (4, 3), (2, 6), (6, 2))):
+        for (ny, nx) in seq:
+            for (py, px) in ((1, nx - 2), (ny - 2, 1), (ny // 2, nx // 3)):
+                img = np.zeros((ny, nx))
+                img[py, px] = 3.0
+                for name, f in (("centre_of_gravity", lambda a: ip.centre_of_gravity(a)), ("centre_of_gravity[threshold]", lambda a: ip.centre_of_gravity(a, threshold=0.2)),
+                                ("brightest_pixel", lambda a: ip.brightest_pixel(a, 0.1 if ny * nx >= 20 else 0.4))):
+                    got = np.asarray(f(img.copy()), float).ravel()
+                    n += 1
+                    if got.shape != (2,) or not np.allclose(got, [px, py], rtol=0, atol=1e-12):
+                        bad.append(("%s:single-pixel:after-frames-of-other-shapes" % name.split("[")[0], dict(shape=[ny, nx], pixel=[px, py], got=got.tolist())))
+                        return bad, n
+                st = np.asarray(ip.centre_of_gravity(np.array([img, img])), float)
+                if st.shape != (2, 2) or not np.allclose(st[:, 0], [px, py], rtol=0, atol=1e-12):
+                    bad.append(("centre_of_gravity:single-pixel:after-frames-of-other-shapes", dict(shape=[ny, nx], stack=True, got=st.tolist())))
+                    return bad, n
+    for (n1, p1), (n2, p2) in (((12, 1), (6, 2)), ((12, 2), (8, 3)), ((10, 3), (15, 2)), ((9, 2), (6, 3)), ((6, 3), (9, 2))):
+        for nn, pp in ((n1, p1), (n2, p2)):
+            yy, xx = np.indices((nn, nn))
+            blob = lambda cy, cx: np.exp(-((xx - cx) ** 2 + (yy - cy) ** 2) / 0.35)       # compact: stays inside the frame when shifted by one
+            c0 = nn // 2
+            for (sy, sx) in ((0, 0), (1, -1), (-1, 1)):
+                ref, im = blob(c0, c0), blob(c0 + sy, c0 + sx)
+                got = np.asarray(ip.correlation_centroid(im.copy(), ref.copy(), threshold=0.3, padding=pp), float).ravel()
+                n += 1
+                base = np.asarray(ip.correlation_centroid(ref.copy(), ref.copy(), threshold=0.3, padding=pp), float).ravel()
+                if got.shape != (2,) or not np.allclose(got - base, [sx, sy], rtol=0, atol=2e-2):
+                    bad.append(("correlation_centroid:displacement:after-frames-of-other-shapes", dict(frame=nn, padding=pp, shift=[sx, sy], got=(got - base).tolist())))
+                    return bad, n
+    return bad, n
+
+
 def relation_sweep(ip, rng):
     """Relations that need no expected value (code against code) on shapes and parameters outside the model's enumeration:
     rank-4 cubes, and brightest-pixel fractions whose pixel count threshold*ny*nx falls on a rounding tie."""
@@ -265,6 +303,8 @@ def run(run):
         warnings.simplefilter("ignore")
         with np.errstate(all="ignore"):
             badr, nr = relation_sweep(ip, np.random.default_rng(run.seed))
+            badh, nh = shape_histories(ip)
+            badr, nr = badr + badh, nr + nh
     run.traces += nr
     run.aux["relation_sweep_calls"] = nr
     for key, detail in badr:
@@ -286,6 +326,7 @@ def replay(run, case):
         with np.errstate(all="ignore"):
             if case.get("kind") == "sweep":
                 bad, _ = relation_sweep(ip, np.random.default_rng(run.seed))
+                bad += shape_histories(ip)[0]
                 drift = []
             else:
                 bad, drift = check_case(ip, case)
